@@ -116,6 +116,10 @@ def gen_files(rng, converter, names, tier):
         spec = {'path': path, 'gen': gen}
         if rng.chance(0.08):
             spec['symlink'] = True
+        if kind == 'other' and world in ('las', 'dat') and rng.chance(0.4):
+            # a neighbouring text file of another vendor, or a damaged one: a key token of its first lines is off
+            by, fields, _ = batch.file_content(gen)
+            spec['faults'] = [damage.gen_fault(rng, len(by), fields, kinds=['char_sub', 'char_sub', 'stretch_token', 'truncate', 'bitflip'])]
         if kind == 'damaged':
             by, fields, _ = batch.file_content(gen)
             nf = rng.wpick([(6, 1), (2, 2), (1, 3)])
